@@ -89,6 +89,10 @@ public:
     set(const XalanDOMString&   theString)
     {
         m_value = theString;
+
+        // The object factory uses an instance again and again,
+        // so the number cached for the previous value must go.
+        resetCachedNumberValue();
     }
 
     // These methods are inherited from XObject ...
